@@ -124,10 +124,9 @@ def c_findvwLTE(chk):
             # last success flag written before the read
             flags = [e["flag"] for e in p.events if e.get("name") == "matchDeflagOrHyb"]
             if not reasons:
-                if not flags:
-                    chk.undecided.append("findvwLTE returns 1 without evaluating a matching")
-                    continue
-                reasons.append(Or(Gt(diff(vmax), 0), Not(flags[-1])))
+                # the sentinel needs its evidence: the mismatch still has the runaway sign at the top of the window (or the matching
+                # there failed).  A path that returns 1 without having looked gets the same obligation; nothing on it implies it.
+                reasons.append(Or(Gt(diff(vmax), 0), Not(flags[-1])) if flags else Gt(diff(vmax), 0))
             chk.vc(f"findvwLTE.runaway-sentinel-reason.{i}", p.pc, Or(*reasons), func=fn)
             continue
         if isinstance(v, int) and v == 0:
